@@ -48,6 +48,9 @@ CHECKS = {
  "C12": dict(design="§3 C12", engine="XH",
              technique="skeleton + holes twice: page compiled under symbolic hole texts (CrossHair/z3), emitted text compared as a string with the canonical page's rendering, canonical page parsed concretely and compiled under the same symbolic texts; selections under 5 orderings",
              note="as C01; pages without sections; .zoq header assembly and grouped output outside"),
+ "C04": dict(design="§4 C04", engine="XH",
+             technique="skeleton + holes on the query grammar: real lexer/parser concretely, real ParseTreeWalker + ZorgQueryCompiler under CrossHair (z3) with symbolic / solver-chosen token texts, compared with the abstract query; symbolic-string kernels for value typing, operator splitting, relative dates",
+             note="stub: clock; menus for identifiers/values (hashed into sets); queries the shipped parser rejects are outside; dateutil trusted"),
 }
 NA = {
  "C13": "crash points between external effects (SQLite transactions, OS file writes) cannot be made symbolic: the effects are C-level/ORM internals; with them concrete a symbolic crash index is realised at the first effect, which is enumeration of faulted runs, a different technique (DESIGN.md §8)",
